@@ -335,7 +335,7 @@ Theorem range_empty_tree : forall k a b stop, k <> KCollation ->
   exists l c, snd (step k init (Range a b stop)) = OSeq l c /\ l = [].
 Proof.
   intros k a b stop HK. exists [], 0%nat. split; [|reflexivity].
-  destruct k as [|w|w|w| |s]; try (exfalso; apply HK; reflexivity); cbn [step snd do_range init root];
+  destruct k as [|w|w|w| |s|enc dec]; try (exfalso; apply HK; reflexivity); cbn [step snd do_range init root];
     try reflexivity;
     destruct (lex_cmp _ _); reflexivity.
 Qed.
